@@ -4,7 +4,9 @@ import (
 	"fmt"
 	"sort"
 	"strings"
+	"sync/atomic"
 	"testing"
+	"time"
 
 	"github.com/snapcore/snapd/interfaces/prompting/patterns"
 )
@@ -63,7 +65,42 @@ type realPat struct {
 	n        int // NumVariants()
 	calls    int // number of RenderAllVariants callbacks
 	idxOK    bool
+	hang     bool
 	variants []patterns.PatternVariant
+}
+
+// enumerate runs RenderAllVariants under a watchdog: renderAllVariants does not advance when
+// parsePatternVariant fails ("should never occur"), so a defect that lets an unparsable variant
+// through would spin forever. A hang is reported as a difference (hang = true); after 3 hangs no
+// further pattern is enumerated (the spinning goroutines cannot be stopped).
+var hangs int32
+
+func enumerate(p *patterns.PathPattern) (variants []patterns.PatternVariant, idxOK bool, hang bool) {
+	if atomic.LoadInt32(&hangs) >= 3 {
+		return nil, true, true
+	}
+	type res struct {
+		vs    []patterns.PatternVariant
+		idxOK bool
+	}
+	done := make(chan res, 1)
+	go func() {
+		r := res{idxOK: true}
+		p.RenderAllVariants(func(i int, v patterns.PatternVariant) {
+			if i != len(r.vs) {
+				r.idxOK = false
+			}
+			r.vs = append(r.vs, v)
+		})
+		done <- r
+	}()
+	select {
+	case r := <-done:
+		return r.vs, r.idxOK, false
+	case <-time.After(time.Duration(envInt("VERIF_HANG_S", 30)) * time.Second):
+		atomic.AddInt32(&hangs, 1)
+		return nil, true, true
+	}
 }
 
 func evalPattern(s string) *realPat {
@@ -75,13 +112,8 @@ func evalPattern(s string) *realPat {
 	}
 	r.ok = true
 	r.n = p.NumVariants()
-	p.RenderAllVariants(func(i int, v patterns.PatternVariant) {
-		if i != r.calls {
-			r.idxOK = false
-		}
-		r.calls++
-		r.variants = append(r.variants, v)
-	})
+	r.variants, r.idxOK, r.hang = enumerate(p)
+	r.calls = len(r.variants)
 	return r
 }
 
@@ -320,6 +352,10 @@ func TestVerifC37Table(t *testing.T) {
 			}
 			nacc++
 			nvariants += r.calls
+			if r.hang {
+				report("hang", map[string]interface{}{"p": s})
+				continue
+			}
 			if r.n != r.calls || r.n != row.N || r.calls > 1000 || !r.idxOK {
 				report("count", map[string]interface{}{"p": s, "ref_n": row.N, "n": r.n, "calls": r.calls, "idx_ok": r.idxOK})
 			}
@@ -512,23 +548,6 @@ func TestVerifC37Valid(t *testing.T) {
 			p, err := patterns.ParsePathPattern(s)
 			evals++
 			ok := err == nil
-			if ok {
-				acc++
-				// an accepted pattern can be enumerated: count law on the real outputs
-				calls := 0
-				p.RenderAllVariants(func(int, patterns.PatternVariant) { calls++ })
-				if calls != p.NumVariants() || calls > 1000 {
-					bad++
-					em.emit(map[string]interface{}{"kind": "count", "p": s, "n": p.NumVariants(), "calls": calls, "ref_n": -1, "idx_ok": true})
-				}
-			} else {
-				rej++
-				msg := err.Error()
-				if i := strings.LastIndex(msg, ": "); i >= 0 {
-					msg = msg[i+2:]
-				}
-				reasons[msg]++
-			}
 			if ok != tb.Valid[i] {
 				bad++
 				if bad <= maxPer {
@@ -538,6 +557,25 @@ func TestVerifC37Valid(t *testing.T) {
 					}
 					em.emit(map[string]interface{}{"kind": "accept", "p": s, "exp_ok": tb.Valid[i], "got_ok": ok, "err": e, "ref_n": -1})
 				}
+			}
+			if ok {
+				acc++
+				// an accepted pattern can be enumerated: count law on the real outputs
+				vs, idxOK, hang := enumerate(p)
+				if hang {
+					bad++
+					em.emit(map[string]interface{}{"kind": "hang", "p": s})
+				} else if len(vs) != p.NumVariants() || len(vs) > 1000 || !idxOK {
+					bad++
+					em.emit(map[string]interface{}{"kind": "count", "p": s, "n": p.NumVariants(), "calls": len(vs), "ref_n": -1, "idx_ok": idxOK})
+				}
+			} else {
+				rej++
+				msg := err.Error()
+				if i := strings.LastIndex(msg, ": "); i >= 0 {
+					msg = msg[i+2:]
+				}
+				reasons[msg]++
 			}
 		}
 	}
@@ -714,7 +752,7 @@ func TestVerifC37Random(t *testing.T) {
 		s := render(ast)
 		rp := evalPattern(s)
 		paths := []string{}
-		if rp.ok {
+		if rp.ok && len(rp.variants) > 0 {
 			for k := 0; k < npaths; k++ {
 				v := rp.variants[r.Intn(len(rp.variants))].String()
 				p := instantiate(r, v)
